@@ -56,8 +56,9 @@ package config
 // the merge keeps the declared names in their order and appends every group member that is not
 // already listed, once.
 //@ func MergeArrays
-//@   prop C10
+//@   prop C10, C02
 //@   modifies nothing
+//@   ensures [own-storage] fresh(result)
 //@   ensures [declared-first]  len(result) >= len(a1) && forall(j, 0, len(a1), result[j] == a1[j])
 //@   ensures [only-from-inputs] forall(j, len(a1), len(result), exists(m, 0, len(a2), a2[m] == result[j]))
 // ([every-member]: every name of a2 occurs in the result - an existential that must be re-established
